@@ -29,7 +29,8 @@ RULE = (
     "constrained systems with solver tolerances 1e-13), a relative step size 0.1-1.9 of the stability limit, a "
     "start state and a transition: static Metropolis (1-6 steps), random Metropolis (ranges within 1-7), multinomial "
     "and slice dynamic with max_tree_depth 1-3 (4 in thorough), both termination criteria, sub-tree checks on/off, "
-    "slice max_delta_h from 0.003 to inf. For every start index of the orbit window (both directions for Metropolis) "
+    "slice max_delta_h from 0.003 to inf; in a third of the cases integrator failures are injected with a "
+    "time-symmetric rule (steps starting or ending outside a box raise ConvergenceError). For every start index of the orbit window (both directions for Metropolis) "
     "ALL outcomes of the internal random draws are enumerated with exact probabilities (scripted generator; the "
     "slice variable is enumerated over the partition of (0,1) induced by the orbit's energy thresholds). Oracle: "
     "sum_i pi_i P(i->j) = pi_j with pi = exp(-(h - h_min)) from system.h, tolerance 1e-9 max(pi); path probabilities "
@@ -77,7 +78,8 @@ def _case(draw, max_depth):
     mom = [sg * m for sg, m in zip(draw(st.lists(st.sampled_from([-1.0, 1.0]), min_size=n, max_size=n)),
                                    draw(vec(n, 0.2, 1.5)))]
     return {"sys": spec, "int": ispec, "trans": t, "q": draw(vec(n, -1.2, 1.2)), "p": mom,
-            "r": draw(unit(0.1, 0.6 if heavy else 1.9))}
+            "r": draw(unit(0.1, 0.6 if heavy else 1.9)),
+            "fault_frac": draw(st.one_of(st.none(), st.none(), unit(0.4, 0.97)))}
 
 
 def strategy(tier):
@@ -96,6 +98,7 @@ class CountingIntegrator:
         self.memo = {}
         self.returned = 0
         self.visited = []
+        self.region = None    # radius of the region outside which steps fail (symmetric, injected fault)
 
     @property
     def step_size(self):
@@ -106,6 +109,10 @@ class CountingIntegrator:
         self.visited = []
 
     def step(self, state):
+        from mici.errors import ConvergenceError
+
+        if self.region is not None and float(np.max(np.abs(state.pos))) > self.region:
+            raise ConvergenceError("injected: step from outside the admissible region")
         key = (np.asarray(state.pos).tobytes(), np.asarray(state.mom).tobytes(), int(state.dir))
         hit = self.memo.get(key)
         if hit is None:
@@ -116,6 +123,8 @@ class CountingIntegrator:
             self.memo[key] = hit
         if hit[0] == "err":
             raise hit[1]
+        if self.region is not None and float(np.max(np.abs(hit[1].pos))) > self.region:
+            raise ConvergenceError("injected: step into the inadmissible region")
         out = hit[1].copy()
         self.returned += 1
         self.visited.append(out)
@@ -238,10 +247,15 @@ def run_case(case) -> Result:
             return None
         return idx[a]
 
+    if case.get("fault_frac") is not None:
+        # injected integrator failures with a time-symmetric rule: any step that starts or ends outside a box fails
+        # with ConvergenceError. A correct transition treats them as rejections / tree terminations and stays invariant.
+        integ.region = case["fault_frac"] * float(np.max(np.abs(Z[:, :Z.shape[1] // 2])))
+        res.classes.append("injected-step-failures")
     trans = build_transition(t, system, integ)
     P = {}                      # (start key) -> {end key: prob}
     starts = [(i, d) for i in range(-W, W + 1) for d in ((1, -1) if metropolis else (1,))]
-    hit_special = any(not math.isfinite(hs[k]) for k in idx)
+    hit_special = any(not math.isfinite(hs[k]) for k in idx) or case.get("fault_frac") is not None
     multi_end = False
     early = [False]
     n_paths = 0
